@@ -328,7 +328,13 @@ func (a *ABI) ExecuteTransaction(req *labi.ExecuteTransactionRequest) (*labi.Exe
 		return nil, errors.New("scripted failure: executeTx")
 	}
 	if o == TxExecInvalid {
-		return &labi.ExecuteTransactionResponse{Result: labi.TxExecuteResultInvalid}, nil
+		// like the real framework (ABIHandler.ExecuteTransaction returns eventLogger.Events() whatever the result), the events
+		// logged before the transaction turned out invalid come back with the answer; the caller has to drop them
+		h := uint32(0)
+		if a.ctx != nil {
+			h = a.ctx.header.Height
+		}
+		return &labi.ExecuteTransactionResponse{Events: txEvents(h, req.Transaction), Result: labi.TxExecuteResultInvalid}, nil
 	}
 	height := uint32(0)
 	if a.ctx != nil {
